@@ -68,6 +68,16 @@ pub(super) struct Ctx {
     // GuardClauseBlockCheck (clause level) record
     pub(super) n_block: u32,
     pub(super) block_status: u8,
+    // RuleCheck / RuleCondition / FileCheck records (rule and file level), in emission order
+    pub(super) rulechecks: [u8; 4],
+    pub(super) n_rulecheck: usize,
+    pub(super) ruleconds: [u8; 4],
+    pub(super) n_rulecond: usize,
+    pub(super) n_filecheck: u32,
+    pub(super) file_status: u8,
+    // per-name planted rule statuses: a dependent rule called "x<i>" has status leaf[i] (0..2, 3 => Err)
+    pub(super) leaf: [u8; 4],
+    pub(super) leaf_calls: [u32; 4],
     // planted answers
     pub(super) rule: u8, // 0..2 status, 3 => Err
     pub(super) rule_calls: u32,
@@ -93,6 +103,14 @@ impl Ctx {
             n_noval: 0,
             n_block: 0,
             block_status: 9,
+            rulechecks: [9; 4],
+            n_rulecheck: 0,
+            ruleconds: [9; 4],
+            n_rulecond: 0,
+            n_filecheck: 0,
+            file_status: 9,
+            leaf: [9; 4],
+            leaf_calls: [0; 4],
             rule: 0,
             rule_calls: 0,
             lhs: None,
@@ -127,6 +145,22 @@ impl<'value> RecordTracer<'value> for Ctx {
             RecordType::GuardClauseBlockCheck(bc) => {
                 self.n_block += 1;
                 self.block_status = code(bc.status);
+            }
+            RecordType::RuleCheck(ns) => {
+                if self.n_rulecheck < 4 {
+                    self.rulechecks[self.n_rulecheck] = code(ns.status);
+                }
+                self.n_rulecheck += 1;
+            }
+            RecordType::RuleCondition(st) => {
+                if self.n_rulecond < 4 {
+                    self.ruleconds[self.n_rulecond] = code(*st);
+                }
+                self.n_rulecond += 1;
+            }
+            RecordType::FileCheck(ns) => {
+                self.n_filecheck += 1;
+                self.file_status = code(ns.status);
             }
             RecordType::ClauseValueCheck(cc) => match cc {
                 ClauseCheck::Success => self.n_success += 1,
@@ -166,9 +200,17 @@ impl<'value, 'loc: 'value> EvalContext<'value, 'loc> for Ctx {
     fn root(&mut self) -> Rc<PathAwareValue> {
         Rc::new(PathAwareValue::Null(p()))
     }
-    fn rule_status(&mut self, _rule_name: &'value str) -> Result<Status> {
+    fn rule_status(&mut self, rule_name: &'value str) -> Result<Status> {
         self.rule_calls += 1;
-        match self.rule {
+        let b = rule_name.as_bytes();
+        let which = if b.len() == 2 && b[0] == b'x' && b[1] >= b'0' && b[1] <= b'3' {
+            let i = (b[1] - b'0') as usize;
+            self.leaf_calls[i] += 1;
+            self.leaf[i]
+        } else {
+            self.rule
+        };
+        match which {
             0 => Ok(Status::PASS),
             1 => Ok(Status::FAIL),
             2 => Ok(Status::SKIP),
